@@ -68,10 +68,19 @@ KNOWN_PANICS = {
 }
 
 
-def classify_panic(ck, msg):
+def all_constructors_failed(trace):
+    """F-I is the panic of the first use of the global handle when *every* way of getting a /proc handle has failed: the last
+    resort, open("/proc"), is only reached after fsopen and open_tree, so its failure in the trace is what identifies the finding.
+    A panic with the same message after a failure of one constructor only is a different violation."""
+    tree = [e for e in trace if e["c"] == "open_tree" and e["ret"] < 0]
+    last = [e for e in trace if e["c"] == "openat" and e.get("fd") == -100 and unhex(e.get("path", "")) == b"/proc" and e["ret"] < 0]
+    return bool(tree) and bool(last)
+
+
+def classify_panic(ck, msg, trace):
     for f in ck.known:
         pat = f.get("match", {}).get("panic_contains")
-        if pat and pat in msg:
+        if pat and pat in msg and (f["id"] != "F-I-globalprocfs" or all_constructors_failed(trace or [])):
             return f
     return None
 
@@ -156,7 +165,7 @@ def run(ck):
             stats["by_errno"][en] = stats["by_errno"].get(en, 0) + 1
             desc = {"job": J.describe(job), "deny": tag, "outcome": r}
             if "panic" in r:
-                kf = classify_panic(ck, r["panic"])
+                kf = classify_panic(ck, r["panic"], res.get("trace"))
                 if kf:
                     stats["panics_known"] += 1
                     ck.known_finding(kf["id"], kf["what"])
@@ -251,7 +260,7 @@ def run(ck):
                         continue
                     stats["cold_runs"] += 1
                     if "panic" in w.get("res", {}):
-                        kf = classify_panic(ck, w["res"]["panic"])
+                        kf = classify_panic(ck, w["res"]["panic"], w.get("trace"))
                         if kf:
                             stats["panics_known"] += 1
                             ck.known_finding(kf["id"], kf["what"])
